@@ -160,6 +160,7 @@ def anm_env(rng, game, tables, feats_override=None):
     env = Env(iv, fv, expr_calls, feats)
     if game in ('th07', 'th08', 'th09'): env.count_form = '--%s > 0'
     env.math_fns = ['sin', 'cos']
+    env.nonconst_conds = True
     return env, lit_calls
 
 
@@ -249,9 +250,14 @@ def gen_msg(rng, game, tables, ending=False, **kw):
     flags = game_ge(game, 'th09')
     rows = []
     idxs = sorted(r.sample(range(0, 8), r.randint(1, 4)))
+    if r.chance(0.85):
+        # reference every script (an unreferenced script is dropped by decompile: known finding, kept rare)
+        while len(idxs) < nscripts: idxs = sorted(set(idxs) | {r.randint(0, 9)})
+    pending = list(names)
     for i in idxs:
         fl_ = (', flags: %d' % r.pick([0, 256, 1])) if (flags and r.chance(0.5)) else ''
-        rows.append('%d: {script: "%s"%s}' % (i, r.pick(names), fl_))
+        nm = pending.pop() if (pending and r.chance(0.9)) else r.pick(names)
+        rows.append('%d: {script: "%s"%s}' % (i, nm, fl_))
     if r.chance(0.5): rows.append('default: {script: "%s"}' % r.pick(names))
     meta = 'meta {\n    table: {\n        ' + ',\n        '.join(rows) + ',\n    },\n'
     if r.chance(0.2): meta += '    table_len: %d,\n' % (max(idxs) + 1 + r.randint(0, 3))
@@ -301,6 +307,7 @@ def ecl_env(rng, game, tables, feats_override=None):
         if rng.chance(0.1): feats.discard(x)
     env = Env(iv, fv, expr_calls, feats)
     env.math_fns = ['sin', 'cos']
+    env.nonconst_conds = True
     return env, lit_calls
 
 
